@@ -36,6 +36,12 @@ struct RunStats {
 };
 
 Outcome evaluate(const Desc& d, const Variant& v, const Profile& pf, const Plan& plan, RunStats* st);
+// differential oracle (no model in the loop): same plan on several variants, normalised traces compared
+// against the first one.  mode: "backend" (C13), "policy" (C19 outside transitions), "frontend" (C14)
+Outcome evaluate_diff(const Desc& d, const std::vector<const Variant*>& vs, const Profile& pf, const Plan& plan,
+                      const std::string& mode, RunStats* st);
+Outcome shrink_diff(const Desc& d, const std::vector<const Variant*>& vs, const Profile& pf, const Plan& plan,
+                    const std::string& mode, const Outcome& first);
 Outcome shrink(const Desc& d, const Variant& v, const Profile& pf, const Plan& plan, const Outcome& first);
 JV outcome_to_json(const Desc& d, const Variant& v, const Outcome& o, long index);
 JV stats_to_json(const RunStats& st);
